@@ -109,21 +109,37 @@ class _Escape(Exception):
     pass
 
 
+class _Control(BaseException):
+    """a control-flow exception that does not derive from Exception (like pytest's skip / KeyboardInterrupt)"""
+
+
+# how a history is spelled on the implementation side; the model does not distinguish the spellings
+EXC_CLASSES = [RuntimeError, KeyboardInterrupt, _Control, GeneratorExit, SystemExit, ArithmeticError]
+VARIANT = {"exc": RuntimeError, "decorator": False}
+
+
 def exec_impl(prog, log, defaults):
     for st in prog:
         k = st[0]
         if k == "set":
             numpoly.set_options(**dict(st[1]))
         elif k == "with":
-            with numpoly.global_options(**dict(st[1])):
-                exec_impl(st[2], log, defaults)
+            if VARIANT["decorator"]:
+                # the decorator spelling of the same block
+                @numpoly.global_options(**dict(st[1]))
+                def body():
+                    exec_impl(st[2], log, defaults)
+                body()
+            else:
+                with numpoly.global_options(**dict(st[1])):
+                    exec_impl(st[2], log, defaults)
         elif k == "try":
             try:
                 exec_impl(st[1], log, defaults)
-            except (KeyError, RuntimeError):
+            except (KeyError, *EXC_CLASSES):
                 pass
         elif k == "raise":
-            raise RuntimeError("inside block")
+            raise VARIANT["exc"]("inside block")
         elif k == "mutget":
             d = numpoly.get_options()
             d[st[1]] = st[2]
@@ -148,8 +164,8 @@ def run_impl(prog, saved, shipped):
     outcome = "normal"
     try:
         exec_impl(prog, log, shipped)
-    except Exception as err:  # noqa: BLE001
-        outcome = type(err).__name__
+    except BaseException as err:  # noqa: BLE001
+        outcome = "RuntimeError" if isinstance(err, tuple(EXC_CLASSES)) else type(err).__name__
     final = (numpoly.get_options(), numpoly.get_options(defaults=True))
     reset_options(saved)
     return log, outcome, final
@@ -168,9 +184,12 @@ def programs(maxlen):
                 yield seq, prog
 
 
-def check_one(ctx, seq, prog, model, saved, shipped):
+def check_one(ctx, seq, prog, model, saved, shipped, variant=0):
+    VARIANT["exc"] = EXC_CLASSES[variant % len(EXC_CLASSES)]
+    VARIANT["decorator"] = (variant // len(EXC_CLASSES)) % 2 == 1
     log, outcome, final = run_impl(prog, saved, shipped)
-    case = {"events": list(seq), "prog": prog}
+    case = {"events": list(seq), "prog": prog, "variant": variant,
+            "spelling": {"exception": VARIANT["exc"].__name__, "decorator": VARIANT["decorator"]}}
     tags = ["history"]
     init = opts_key(saved)
     mlog = [sorted(map(tuple, o)) for o in model["log"]]
@@ -195,6 +214,40 @@ def check_one(ctx, seq, prog, model, saved, shipped):
             return
 
 
+def run_reentrant(ctx, saved):
+    """one decorated function re-entering itself (one manager object, several live entries), with and without an
+    exception at the innermost level: afterwards the options are those from before the outermost call"""
+    for kw in ({A: False}, {A: False, "display_exponent": "^"}):
+        for depth in (1, 2, 3):
+            for exc in [None] + EXC_CLASSES:
+                seen = []
+
+                @numpoly.global_options(**kw)
+                def f(n):
+                    seen.append({k: numpoly.get_options()[k] for k in kw})
+                    if n:
+                        return f(n - 1)
+                    if exc is not None:
+                        raise exc("innermost")
+                ctx.evaluations += 1
+                ctx.count("reentrant")
+                try:
+                    f(depth)
+                except BaseException as err:  # noqa: BLE001
+                    if exc is None or not isinstance(err, exc):
+                        ctx.fail({"events": ["reentrant"], "kw": kw, "depth": depth}, f"re-entrant decorated call raised {type(err).__name__}: {err}", ["reentrant", "raises"])
+                        reset_options(saved)
+                        continue
+                after = numpoly.get_options()
+                case = {"events": ["reentrant"], "kw": {k: repr(v) for k, v in kw.items()}, "depth": depth, "exception": getattr(exc, "__name__", None)}
+                if any(s_ != kw for s_ in seen):
+                    ctx.fail(case, f"inside the decorated function the options were {seen}, expected {kw} at every depth", ["reentrant", "inside"])
+                if after != saved:
+                    diff = {k: (after[k], saved[k]) for k in saved if after[k] != saved[k]}
+                    ctx.fail(case, f"after a decorated function re-entered itself {depth} time(s) (left by {getattr(exc, '__name__', 'return')}) the options are not restored: {diff}", ["reentrant", "leak"])
+                reset_options(saved)
+
+
 def run(ctx):
     ctx.rule = RULE
     ctx.exhaustive = True
@@ -212,7 +265,8 @@ def run(ctx):
         for (seq, prog), model in zip(metas, models):
             if model.get("status") != "ok":
                 raise RuntimeError(f"driver: {model}")
-            check_one(ctx, seq, prog, model, saved, shipped)
+            # the exception class leaving a block and the statement / decorator spelling rotate over the histories
+            check_one(ctx, seq, prog, model, saved, shipped, variant=ctx.evaluations)
             ctx.evaluations += 1
             if any(EVENTS[e][0] == "enter" and not is_bad(EVENTS[e][1]) for e in seq[:-1]):
                 ctx.nontrivial_add(seq)
@@ -229,6 +283,7 @@ def run(ctx):
             if len(ctx.failures) > 20:
                 break
     flush()
+    run_reentrant(ctx, saved)
     seq = ("Ea", "Sb", "Eab", "R")
     ctx.sample({"events": list(seq), "program": structure(seq)})
     reset_options(saved)
@@ -237,9 +292,12 @@ def run(ctx):
 def replay(ctx, case):
     saved = numpoly.get_options()
     shipped = numpoly.get_options(defaults=True)
-    prog = case["prog"]
+    prog = case.get("prog", [])
     model = run_driver([{"id": 0, "op": "opts", "init": opts_key(saved), "prog": to_model(prog)}])[0]
     n = len(ctx.failures)
-    check_one(ctx, tuple(case["events"]), prog, model, saved, shipped)
+    if case["events"] == ["reentrant"]:
+        run_reentrant(ctx, saved)
+        return ctx.failures[n]["what"] if len(ctx.failures) > n else None
+    check_one(ctx, tuple(case["events"]), prog, model, saved, shipped, variant=case.get("variant", 0))
     reset_options(saved)
     return ctx.failures[n]["what"] if len(ctx.failures) > n else None
